@@ -926,6 +926,444 @@ def check_process(case, impl=None):
     return None
 
 
+
+# ------------------------------------------------------------------------------------------ lifecycle: close_link that raises, with-block
+class _CloseErr(Exception):
+    pass
+
+
+class _BodyErr(Exception):
+    pass
+
+
+def gen_lifecycle(rng, mode=None):
+    n = rng.randrange(0, 6)
+    uris = rng.sample(range(1, 40), n)
+    if n and rng.random() < 0.15:
+        uris.insert(rng.randrange(len(uris) + 1), rng.choice(uris))
+    mem = members_of(uris)
+    pf = rng.choice([0.0, 0.0, 0.3, 0.7])
+    pc = rng.choice([0.0, 0.3, 0.3, 1.0])
+    return {'op': 'lifecycle', 'mode': mode or rng.choice(['close_links', 'open_links', 'with', 'with']), 'uris': uris,
+            'open_fail': [u for u in mem if rng.random() < pf], 'close_fail': [u for u in mem if rng.random() < pc],
+            'body_raises': rng.random() < 0.4}
+
+
+def run_lifecycle(case):
+    import cflib.crazyflie.swarm as sw
+    open_fail, close_fail = set(case['open_fail']), set(case['close_fail'])
+    log = {'opens': [], 'closes': [], 'open_errs': {}, 'close_errs': {}, 'body_ran': False}
+    lock = threading.Lock()
+
+    class M:
+        def __init__(self, uri, inst):
+            self.uri, self.inst = uri, inst
+
+        def open_link(self):
+            with lock:
+                log['opens'].append(self.inst)
+            if self.uri in open_fail:
+                e = _Err(self.inst)
+                log['open_errs'][id(e)] = (e, self.k)
+                raise e
+
+        def close_link(self):
+            log['closes'].append(self.inst)
+            if self.uri in close_fail:
+                e = _CloseErr(self.inst)
+                log['close_errs'][id(e)] = (e, self.k)
+                raise e
+
+    class F:
+        def __init__(self):
+            self.k = 0
+
+        def construct(self, uri):
+            self.k += 1
+            return M(uri, self.k - 1)
+
+    s = sw.Swarm(case['uris'], factory=F())
+    for k, m in enumerate(s._cfs.values()):
+        m.k = k
+    body_err = _BodyErr('body')
+
+    def classify(e):
+        if e is body_err:
+            return ['WBody']
+        if id(e) in log['close_errs']:
+            return ['WClose', log['close_errs'][id(e)][1]]
+        c = e.__cause__
+        if str(e).startswith('One or more threads') and c is not None and id(c) in log['open_errs']:
+            return ['WOpenFailed', ['EChained', log['open_errs'][id(c)][1]]]
+        if str(e) == 'Already opened':
+            return ['WOpenFailed', 'EAlreadyOpen']
+        return ['unexpected', repr(e)[:80]]
+    try:
+        if case['mode'] == 'close_links':
+            s._is_open = True
+            s.close_links()
+        elif case['mode'] == 'open_links':
+            s.open_links()
+        else:
+            with s:
+                log['body_ran'] = True
+                if case['body_raises']:
+                    raise body_err
+        out = ['WOk']
+    except Exception as e:  # noqa
+        out = classify(e)
+    return {'outcome': out, 'body_ran': log['body_ran'], 'is_open': bool(s._is_open), 'closes': log['closes'],
+            'opens': sorted(log['opens']), 'members': [m.inst for m in s._cfs.values()], 'member_uris': [m.uri for m in s._cfs.values()]}
+
+
+def _posfun(mem, sel):
+    return '(fun k => existsb (Nat.eqb k) [%s])' % '; '.join('%d%%nat' % i for i, u in enumerate(mem) if u in sel)
+
+
+def lifecycle_term(case):
+    mem = members_of(case['uris'])
+    c = '(mk_cfg %s None %s)' % (coqrun.zlist(case['uris']), coqrun.zlist(case['open_fail']))
+    cf = _posfun(mem, case['close_fail'])
+    failing = [i for i, u in enumerate(mem) if u in case['open_fail']]
+    r = 'Returned' if not failing else '(Raised (EChained %d%%nat))' % failing[0]
+    insts = 'map (inst %s) (seq 0 (n %s))' % (c, c)
+    if case['mode'] == 'close_links':
+        return '(%s, close_links_f %s true %s)' % (insts, c, cf)
+    if case['mode'] == 'open_links':
+        return '(%s, open_links_f %s false %s %s)' % (insts, c, r, cf)
+    return '(%s, with_swarm %s %s %s %s)' % (insts, c, r, '(Some 0%nat)' if case['body_raises'] else 'None', cf)
+
+
+def _norm_wres(w, case):
+    w = _norm(w)
+    if w == 'WOk':
+        return ['WOk']
+    if isinstance(w, list) and w[0] == 'WBody':
+        return ['WBody']
+    return w
+
+
+def compare_lifecycle(case, impl, mv):
+    m = _norm(mv)
+    insts = m[0]
+    if insts != impl['members']:
+        return ('member dictionary differs', insts, impl['members'])
+    mem = members_of(case['uris'])
+    io = impl['outcome']
+    failing = [i for i, u in enumerate(mem) if u in case['open_fail']]
+    if io[0] == 'WOpenFailed' and isinstance(io[1], list) and io[1][1] in failing:
+        io = ['WOpenFailed', ['EChained', failing[0]]]          # canonical: one of the open failures
+    r = m[1]
+    if case['mode'] == 'with':
+        want = [_norm_wres(r[0], case), r[1], r[2], r[3]]
+        got = [io, impl['body_ran'], impl['is_open'], impl['closes']]
+    else:
+        want = [_norm_wres(r[0], case), r[1], r[2]]
+        got = [io, impl['is_open'], impl['closes']]
+    if want != got:
+        return ('lifecycle (%s) differs' % case['mode'], want, got)
+    return None
+
+
+def check_lifecycle(case, impl=None):
+    impl = impl or run_lifecycle(case)
+    mem = members_of(case['uris'])
+    last = {}
+    for i, u in enumerate(case['uris']):
+        last[u] = i
+    insts = [last[u] for u in mem]
+    o = impl['outcome']
+    open_pos = [i for i, u in enumerate(mem) if u in case['open_fail']]
+    close_pos = [i for i, u in enumerate(mem) if u in case['close_fail']]
+
+    def fail(cls, exp, detail):
+        return {'class': cls, 'case': case, 'expected': exp, 'observed': impl, 'detail': detail}
+    mode = case['mode']
+    opened_ok = mode == 'close_links' or not open_pos
+    must_close = mode in ('close_links', 'with') or bool(open_pos)
+    if close_pos and must_close:
+        # a raising close_link() is outside the property text: judge only what does not depend on the closes
+        if sorted(impl['opens']) != (sorted(insts) if mode != 'close_links' else []):
+            return fail('open_not_attempted_once_per_member', sorted(insts), 'every link opening is attempted exactly once')
+        if mode == 'with' and impl['body_ran'] != (not open_pos):
+            return fail('with_body_not_run' if not open_pos else 'body_run_after_failed_open', not open_pos, '')
+        if impl['closes'] != insts[:len(impl['closes'])] or len(set(impl['closes'])) != len(impl['closes']):
+            return fail('close_order_wrong', insts, 'links are closed in dictionary order, none twice')
+        return None
+    if must_close and (impl['closes'] != insts or impl['is_open']):
+        return fail('not_every_link_closed', {'closes': insts, 'is_open': False},
+                    'every link must be closed (once, whatever close_link() of another member does) and the swarm not be open')
+    if not must_close and (impl['closes'] or not impl['is_open']):
+        return fail('successful_open_closed_links', {'closes': [], 'is_open': True}, '')
+    if mode != 'close_links' and open_pos:
+        if o[0] != 'WOpenFailed' or not isinstance(o[1], list) or o[1][1] not in open_pos or impl['body_ran']:
+            return fail('open_failure_not_raised', ['WOpenFailed', open_pos], 'if opening any link fails the failure is raised (and the body is not run)')
+        return None
+    if mode == 'with' and not impl['body_ran']:
+        return fail('with_body_not_run', True, '')
+    want = ['WClose', close_pos[0]] if (close_pos and must_close) else (['WBody'] if mode == 'with' and case['body_raises'] else ['WOk'])
+    if want[0] == 'WClose':
+        if o[0] != 'WClose' or o[1] not in close_pos:
+            return fail('close_error_not_reported', want, 'a close_link() error is reported after all links were closed')
+    elif o != want:
+        return fail('lifecycle_wrong_outcome', want, '')
+    return None
+
+
+# ------------------------------------------------------------------------------------------ helper actions built on parallel_safe
+def gen_helpers(rng):
+    n = rng.randrange(1, 5)
+    uris = rng.sample(range(1, 40), n)
+
+    def stream():
+        k = rng.random()
+        if k < 0.12:
+            return []
+        return [[rng.randrange(-50, 50) for _ in range(3)] for _ in range(rng.randrange(1, 4))]
+
+    def vstream():
+        pre = [[rng.choice([0, 1, 2, 1000]) for _ in range(3)] for _ in range(rng.randrange(0, 8))]
+        v = [rng.randrange(0, 3) for _ in range(3)]
+        k = rng.random()
+        if k < 0.15:
+            return pre                                        # never settles: stream ends (disconnect)
+        return pre + [list(v) for _ in range(rng.randrange(8, 14))] + [[7, 7, 7]] * rng.randrange(0, 3)
+    return {'op': 'helpers', 'uris': uris,
+            'pos1': {u: stream() for u in uris}, 'pos2': {u: stream() for u in uris},
+            'fail2': [u for u in uris if rng.random() < 0.25],
+            'var': {u: vstream() for u in uris}, 'fail_reset': [u for u in uris if rng.random() < 0.15]}
+
+
+class _HelperErr(Exception):
+    pass
+
+
+def run_helpers(case):
+    import cflib.crazyflie.swarm as sw
+    rec = {}
+    lock = threading.Lock()
+    cur = {'streams': None, 'fail': set()}
+    by_thread = {}
+
+    class Param:
+        def __init__(self, m):
+            self.m = m
+
+        def set_value(self, name, value):
+            by_thread[threading.get_ident()] = self.m
+            if self.m.uri in cur['fail']:
+                raise _HelperErr(self.m.uri)
+            with lock:
+                rec[self.m.uri]['calls'].append(['set', name, value])
+
+    class Cf:
+        def __init__(self, m):
+            self.link_uri = m.uri
+            self.param = Param(m)
+
+    class M:
+        def __init__(self, uri, inst):
+            self.uri, self.inst = uri, inst
+            self.cf = Cf(self)
+
+        def open_link(self):
+            pass
+
+        def close_link(self):
+            pass
+
+    class F:
+        def __init__(self):
+            self.k = 0
+
+        def construct(self, uri):
+            self.k += 1
+            return M(uri, self.k - 1)
+
+    class FakeSyncLogger:
+        def __init__(self, scf, log_config):
+            self.m = scf
+            self.cfg = log_config
+            if scf.uri in cur['fail'] and cur['fail_in_logger']:
+                raise _HelperErr(scf.uri)
+            names = [v.name for v in log_config.variables]
+            with lock:
+                rec[scf.uri]['logs'].append([log_config.name, names, log_config.period_in_ms])
+            self.names = names
+            self.it = iter(cur['streams'][scf.uri] if str(scf.uri) not in cur['streams'] else cur['streams'][str(scf.uri)])
+
+        def __enter__(self):
+            return self
+
+        def __exit__(self, *a):
+            with lock:
+                rec[self.m.uri]['exits'] += 1
+
+        def __iter__(self):
+            return self
+
+        def __next__(self):
+            v = next(self.it)
+            with lock:
+                rec[self.m.uri]['consumed'] += 1
+            return (0, {n: float(x) for n, x in zip(self.names, v)}, self.cfg)
+
+    class FakeTime:
+        @staticmethod
+        def sleep(d):
+            m = by_thread.get(threading.get_ident())
+            if m is not None:
+                with lock:
+                    rec[m.uri]['calls'].append(['sleep', d])
+
+    old_sl, old_t = sw.SyncLogger, sw.time
+    sw.SyncLogger, sw.time = FakeSyncLogger, FakeTime
+    try:
+        s = sw.Swarm(case['uris'], factory=F())
+
+        def fresh():
+            for u in case['uris']:
+                rec[u] = {'calls': [], 'logs': [], 'consumed': 0, 'exits': 0}
+
+        def call(fn):
+            try:
+                r = fn()
+                return ['Returned'], r
+            except Exception as e:  # noqa
+                return ['Raised', type(e.__cause__).__name__], None
+        res = {}
+        fresh()
+        cur.update({'streams': case['pos1'], 'fail': set(), 'fail_in_logger': True})
+        o, r = call(s.get_estimated_positions)
+        res['pos1'] = {'outcome': o, 'result': None if r is None else sorted([u, list(p)] for u, p in r.items()),
+                       'rec': {u: dict(rec[u]) for u in case['uris']}}
+        fresh()
+        cur.update({'streams': case['pos2'], 'fail': set(case['fail2']), 'fail_in_logger': True})
+        o, r = call(s.get_estimated_positions)
+        res['pos2'] = {'outcome': o, 'result': None if r is None else sorted([u, list(p)] for u, p in r.items()),
+                       'positions': sorted([u, list(p)] for u, p in s._positions.items()),
+                       'rec': {u: dict(rec[u]) for u in case['uris']}}
+        fresh()
+        cur.update({'streams': case['var'], 'fail': set(case['fail_reset']), 'fail_in_logger': False})
+        o, r = call(s.reset_estimators)
+        res['reset'] = {'outcome': o, 'rec': {u: dict(rec[u]) for u in case['uris']}}
+        return res
+    finally:
+        sw.SyncLogger, sw.time = old_sl, old_t
+
+
+def _g(d, u):
+    return d[u] if u in d else d[str(u)]
+
+
+def helpers_term(case):
+    uris = case['uris']
+    c = '(mk_cfg %s None [])' % coqrun.zlist(uris)
+    uf = '(fun k => nth k %s 0)' % coqrun.zlist(uris)
+
+    def streams(d):
+        return '(fun k => nth k [%s] [])' % '; '.join(
+            '[' + '; '.join('(%s, %s, %s)' % tuple(coqrun.z(x) for x in p) for p in _g(d, u)) + ']' for u in uris)
+    ok1 = '(fun _ => true)'
+    ok2 = '(fun k => nth k [%s] false)' % '; '.join(coqrun.coq_bool(u not in case['fail2']) for u in uris)
+    p1 = '(positions_after %s %s %s %s (fun _ => None))' % (c, uf, streams(case['pos1']), ok1)
+    p2 = '(positions_after %s %s %s %s %s)' % (c, uf, streams(case['pos2']), ok2, p1)
+    waits = '[' + '; '.join('wait_for_position_estimator [%s]' % '; '.join(
+        '(%s, %s, %s)' % tuple(coqrun.z(x) for x in p) for p in _g(case['var'], u)) for u in uris) + ']'
+    return '(map %s %s, map %s %s, %s, reset_param_calls)' % (p1, coqrun.zlist(uris), p2, coqrun.zlist(uris), waits)
+
+
+def _expect_helpers(case, p1, p2, waits):
+    """What the observables must be, given per-URI positions after call 1 / call 2 and (consumed, converged) waits."""
+    uris = case['uris']
+    exp = {'pos1': sorted([u, list(p)] for u, p in zip(uris, p1) if p is not None),
+           'pos2': sorted([u, list(p)] for u, p in zip(uris, p2) if p is not None),
+           'pos2_outcome': ['Raised', '_HelperErr'] if case['fail2'] else ['Returned'],
+           'reset_outcome': ['Raised', '_HelperErr'] if case['fail_reset'] else ['Returned'],
+           'consumed': {u: (0 if u in case['fail_reset'] else w[0]) for u, w in zip(uris, waits)}}
+    return exp
+
+
+def _observe_helpers(case, impl):
+    uris = case['uris']
+    return {'pos1': impl['pos1']['result'], 'pos2': impl['pos2']['positions'], 'pos2_outcome': impl['pos2']['outcome'],
+            'reset_outcome': impl['reset']['outcome'], 'consumed': {u: impl['reset']['rec'][u]['consumed'] for u in uris}}
+
+
+def _helpers_protocol_failure(case, impl):
+    """Per-member sequences: the right log configuration once, the right parameter writes in order."""
+    for u in case['uris']:
+        for ph, name, names, period in (('pos1', 'stateEstimate', ['stateEstimate.x', 'stateEstimate.y', 'stateEstimate.z'], 10),):
+            r = impl[ph]['rec'][u]
+            if r['logs'] != [[name, names, period]] or r['exits'] != 1 or r['calls']:
+                return ('helper_member_sequence_wrong', ph, u, r)
+            n_want = min(1, len(_g(case[ph], u)))
+            if r['consumed'] != n_want:
+                return ('helper_member_sequence_wrong', ph, u, r)
+        r = impl['reset']['rec'][u]
+        if u in case['fail_reset']:
+            if r['calls'] or r['logs']:
+                return ('helper_member_sequence_wrong', 'reset', u, r)
+            continue
+        if r['calls'] != [['set', 'kalman.resetEstimation', '1'], ['sleep', 0.1], ['set', 'kalman.resetEstimation', '0']] or \
+                r['logs'] != [['Kalman Variance', ['kalman.varPX', 'kalman.varPY', 'kalman.varPZ'], 500]] or r['exits'] != 1:
+            return ('helper_member_sequence_wrong', 'reset', u, r)
+    return None
+
+
+def compare_helpers(case, impl, mv):
+    m = _norm(mv)
+    p1, p2, waits, pcalls = m[0], m[1], m[2], m[3]
+    if pcalls != [['PSet', 1], 'PSleep100ms', ['PSet', 0]]:
+        return ('model: reset parameter sequence', pcalls, None)
+    want = _expect_helpers(case, p1, p2, [tuple(w) for w in waits])
+    got = _observe_helpers(case, impl)
+    if want != got:
+        return ('helper actions differ', want, got)
+    f = _helpers_protocol_failure(case, impl)
+    if f:
+        return ('helper actions: per-member sequence differs', f[:3], f[3])
+    return None
+
+
+def _py_wait(stream):
+    hx, hy, hz = [1000] * 10, [1000] * 10, [1000] * 10
+    n = 0
+    for x, y, z in stream:
+        n += 1
+        for h, v in ((hx, x), (hy, y), (hz, z)):
+            h.append(v)
+            h.pop(0)
+        if all(max(h) - min(h) < 0.001 for h in (hx, hy, hz)):
+            return (n, True)
+    return (n, False)
+
+
+def check_helpers(case, impl=None):
+    """Property text: every member exactly once, results keyed by the right URI, failure of one member reported,
+    the others unaffected."""
+    impl = impl or run_helpers(case)
+    uris = case['uris']
+    p1 = [(_g(case['pos1'], u) or [None])[0] for u in uris]
+    p2 = []
+    for u, old in zip(uris, p1):
+        st = _g(case['pos2'], u)
+        p2.append(st[0] if (st and u not in case['fail2']) else old)
+    waits = [_py_wait(_g(case['var'], u)) for u in uris]
+    want = _expect_helpers(case, p1, p2, waits)
+    got = _observe_helpers(case, impl)
+    if want != got:
+        cls = 'position_under_wrong_uri' if (want['pos1'] != got['pos1'] or want['pos2'] != got['pos2']) else \
+            'helper_failure_not_reported' if (want['pos2_outcome'] != got['pos2_outcome'] or want['reset_outcome'] != got['reset_outcome']) \
+            else 'estimator_wait_wrong'
+        return {'class': cls, 'case': case, 'expected': want, 'observed': got,
+                'detail': 'get_estimated_positions / reset_estimators: per-member results and failure report'}
+    f = _helpers_protocol_failure(case, impl)
+    if f:
+        return {'class': f[0], 'case': case, 'expected': f[1:3], 'observed': f[3]}
+    return None
+
+
 # ------------------------------------------------------------------------------------------ tie
 def _corpus_cases():
     import glob
@@ -941,7 +1379,7 @@ def _corpus_cases():
 
 
 def _gen_cases(ctx, rng):
-    cases = [c for c in _corpus_cases() if c.get('op') not in ('history', 'process') and c.get('kind') != 'hold']
+    cases = [c for c in _corpus_cases() if c.get('op') not in ('history', 'process', 'lifecycle', 'helpers') and c.get('kind') != 'hold']
     # all failing subsets for small swarms, several schedules each
     for n in range(0, ctx.scale(4, 5)):
         for sub in itertools.chain.from_iterable(itertools.combinations(range(n), r) for r in range(n + 1)):
@@ -1048,6 +1486,39 @@ def tie(ctx):
         if nf >= 2:
             nontriv += 1
         d = compare_process(c, impl, mv)
+        if d:
+            n_bad += 1
+            if len(dis) < 12:
+                dis.append({'what': d[0], 'case': c, 'model': d[1], 'impl': d[2]})
+    # ---- lifecycle (close_link that raises, with-block) and helper actions, ungated
+    lcases = [c for c in _corpus_cases() if c.get('op') == 'lifecycle'] + [gen_lifecycle(rng) for _ in range(ctx.scale(250, 3000))]
+    lmodel = coqrun.eval_terms(HEADER, [lifecycle_term(c) for c in lcases], tag='c19l', shard=100)
+    dist['lifecycle_cases'] = 0
+    dist['lifecycle_close_failures'] = 0
+    for c, mv in zip(lcases, lmodel):
+        if n_bad >= 6:
+            break
+        impl = run_lifecycle(c)
+        n_run += 1
+        dist['lifecycle_cases'] += 1
+        dist['lifecycle_close_failures'] += 1 if c['close_fail'] else 0
+        nontriv += 1 if (c['close_fail'] or c['open_fail']) and len(c['uris']) >= 2 else 0
+        d = compare_lifecycle(c, impl, mv)
+        if d:
+            n_bad += 1
+            if len(dis) < 12:
+                dis.append({'what': d[0], 'case': c, 'model': d[1], 'impl': d[2]})
+    hcases2 = [c for c in _corpus_cases() if c.get('op') == 'helpers'] + [gen_helpers(rng) for _ in range(ctx.scale(150, 2000))]
+    hmodel2 = coqrun.eval_terms(HEADER, [helpers_term(c) for c in hcases2], tag='c19g', shard=60)
+    dist['helper_cases'] = 0
+    for c, mv in zip(hcases2, hmodel2):
+        if n_bad >= 6:
+            break
+        impl = run_helpers(c)
+        n_run += 1
+        dist['helper_cases'] += 1
+        nontriv += 1 if len(c['uris']) >= 2 else 0
+        d = compare_helpers(c, impl, mv)
         if d:
             n_bad += 1
             if len(dis) < 12:
@@ -1270,7 +1741,7 @@ def oracle(ctx, deep=False):
         if f and sum(1 for x in fails if x['class'] == f['class']) < 2:
             fails.append(f)
 
-    cases = [c for c in _corpus_cases() if c.get('op') not in ('history', 'process') and c.get('kind') != 'hold']
+    cases = [c for c in _corpus_cases() if c.get('op') not in ('history', 'process', 'lifecycle', 'helpers') and c.get('kind') != 'hold']
     for size in range(0, ctx.scale(4, 5)):
         for sub in itertools.chain.from_iterable(itertools.combinations(range(size), r) for r in range(size + 1)):
             for op in ('parallel_safe', 'parallel_safe', 'parallel', 'sequential', 'open_links', 'open_twice', 'par_then_par'):
@@ -1290,6 +1761,14 @@ def oracle(ctx, deep=False):
             [gen_process(rng) for i in range(ctx.scale(200, 3000) * (3 if deep else 1))]:
         n += 1
         add(check_process(c))
+    for c in [c for c in _corpus_cases() if c.get('op') == 'lifecycle'] + \
+            [gen_lifecycle(rng) for i in range(ctx.scale(250, 3000) * (3 if deep else 1))]:
+        n += 1
+        add(check_lifecycle(c))
+    for c in [c for c in _corpus_cases() if c.get('op') == 'helpers'] + \
+            [gen_helpers(rng) for i in range(ctx.scale(100, 1500) * (3 if deep else 1))]:
+        n += 1
+        add(check_helpers(c))
     # the join: members whose action is held back must hold back the caller
     for i in range(ctx.scale(10, 60)):
         size = rng.randrange(2, 6)
@@ -1321,4 +1800,8 @@ def replay(payload, ctx):
         return check_history(c)
     if c.get('op') == 'process':
         return check_process(c)
+    if c.get('op') == 'lifecycle':
+        return check_lifecycle(c)
+    if c.get('op') == 'helpers':
+        return check_helpers(c)
     return check_property(c, run_impl(c))
